@@ -61,6 +61,7 @@ const (
 	HookUnwrap // a struct with the single exported field "Wrapped" is replaced by that field's value
 	HookConst  // every step's result is replaced by the constant string "K"
 	HookShout  // HookUnwrap, and every string-kind value (json.Number aside) is replaced by its upper-cased copy as a plain string
+	HookNested // identity for the value; the hook itself evaluates other expressions (re-entrant use of the library) before returning
 )
 
 // Env is the evaluation context.
